@@ -11,6 +11,7 @@
   `b ≥ 1` (`range(0, n, 0)` raises in Python), every seed / generator, every truncation.
 -/
 import TakVerif.Lemmas.BatchEpoch
+import TakVerif.Lemmas.BatchSession
 
 namespace Tak.C20
 open Tak.Batch Tak.BatchSpec Tak.BatchLemmas
@@ -236,6 +237,42 @@ theorem C20_truncation (cfg : DsCfg α) (t : Nat) (ht : cfg.batches = some t)
         omega
       omega
 
+/-- Several epoch iterators over ONE dataset object, advanced in any interleaving with one another
+    and with `fastforward_epochs` (a training loop suspended in the middle of an epoch while an
+    evaluation hook makes its own pass; a second pass started before the first one is exhausted):
+    the dataset has advanced by exactly the number of permutations drawn; every started iterator
+    `j` owns one epoch of the *sequential* stream — the epoch of the draw that started it, no two
+    iterators the same — and what `next(it_j)` has returned so far, followed by what it still
+    holds, is exactly that epoch, in order.  In particular an exhausted iterator has yielded every
+    batch of its epoch (hence, by `C20_epoch_perm`, each stored row exactly once), whatever
+    happened on the same object in between. -/
+theorem C20_interleaved (ds0 : Ds α G) (ops : List SessOp) :
+    let r := Sess.run R (Sess.init ds0) ops
+    r.1.ds = Ds.after R r.1.draws ds0 ∧
+    (∀ (j : Nat) (it : EpochIter α), r.1.iters[j]? = some (some it) →
+      it.epoch < r.1.draws ∧
+      (Ds.stream R r.1.draws ds0)[it.epoch]? = some (batchesOf j r.2 ++ it.rest)) ∧
+    (∀ (j k : Nat) (it it' : EpochIter α), j ≠ k →
+      r.1.iters[j]? = some (some it) → r.1.iters[k]? = some (some it') → it.epoch ≠ it'.epoch) := by
+  intro r
+  have hinv : SessInv R ds0 r.1 := sessInv_run R ds0 ops _ (sessInv_init R ds0)
+  refine ⟨hinv.ds_eq, ?_, hinv.distinct⟩
+  intro j it hj
+  have hst := hinv.started j it hj
+  refine ⟨hst.1, ?_⟩
+  have hy : it.yielded = batchesOf j r.2 := by
+    have := yieldedOf_run R ops (Sess.init ds0) j
+    have h0 : yieldedOf (Sess.init ds0 : Sess α G) j = [] := by simp [yieldedOf, Sess.init]
+    rw [h0, List.nil_append] at this
+    rw [← this]
+    show it.yielded = yieldedOf r.1 j
+    simp [yieldedOf, hj]
+  rw [← hy, hst.2]
+  -- epoch `e < draws` of the sequential stream
+  obtain ⟨m, hm⟩ : ∃ m, r.1.draws = (it.epoch + 1) + m := ⟨r.1.draws - (it.epoch + 1), by omega⟩
+  rw [hm, stream_add, List.getElem?_append_left (by rw [stream_length]; exact Nat.lt_succ_self _)]
+  exact epochOf_eq_stream R ds0 it.epoch
+
 end stream
 
 /-! ## the replay-buffer dataset -/
@@ -356,6 +393,16 @@ example : Ds.stream exRNG 2 (Ds.init exRNG exCfg) =
 
 example : Ds.stream exRNG 1 (Ds.fastforward exRNG 1 (Ds.init exRNG exCfg)) =
     [[[[13, 10], [169, 100]], [[11, 12], [121, 144]]]] := by decide +kernel
+
+/-- `C20_interleaved`: two iterators over one dataset, the second started and exhausted while
+    the first is suspended after one batch, with a fast-forward in between: the first still
+    finishes epoch 0, the second yields epoch 2 -/
+example :
+    let r := Sess.run exRNG (Sess.init (Ds.init exRNG exCfg))
+      [.mk, .next 0, .mk, .ff 1, .next 1, .next 1, .next 1, .next 0, .next 0]
+    batchesOf 0 r.2 = [[[12, 13], [144, 169]], [[10, 11], [100, 121]]] ∧
+    batchesOf 1 r.2 = (Ds.stream exRNG 3 (Ds.init exRNG exCfg))[2]?.getD [] ∧
+    r.1.draws = 3 := by decide +kernel
 
 /-- two replay-buffer batches of widths 2 and 3 with one other column -/
 def exBufs : List (Buffer Nat) :=
